@@ -165,7 +165,11 @@ class QueryExpressionPlaceholderTransformation(
                 p = val.s[0]
                 if self.is_handled_placeholder(p):
                     return SigmaQueryExpression(self.expression, self.mapping.get(p.name) or p.name)
-            else:  # SigmaString contains placeholder as well as other parts
+            elif any(
+                self.is_handled_placeholder(part)
+                for part in val.s
+                if isinstance(part, Placeholder)
+            ):  # SigmaString contains a placeholder of this transformation as well as other parts
                 raise SigmaValueError(
                     "Placeholder query expression transformation only allows placeholder-only strings."
                 )
